@@ -29,6 +29,10 @@ type LockState struct {
 	Held    bool
 	Owner   *Thread
 	Readers int
+	// WriterWaiting: writers that have called Lock while readers held the lock. As with Go's
+	// sync.RWMutex, new readers are not admitted while a writer waits (this is what makes recursive
+	// read locking a deadlock).
+	WriterWaiting int
 }
 
 type Thread struct {
@@ -55,6 +59,18 @@ type Sched struct {
 	// arrival order, which the runtime owns).
 	Ambiguous  []string
 	Violations []string
+	spawned    map[string]int
+	parents    map[uint64]uint64
+}
+
+// parentOf is called with s.mu held by the goroutine g itself.
+func (s *Sched) parentOf(g uint64) uint64 {
+	if p, ok := s.parents[g]; ok {
+		return p
+	}
+	p := parentGoid()
+	s.parents[g] = p
+	return p
 }
 
 var cur atomic.Pointer[Sched]
@@ -64,7 +80,7 @@ func Install(s *Sched) { cur.Store(s) }
 func Current() *Sched  { return cur.Load() }
 
 func New() *Sched {
-	return &Sched{threads: map[uint64]*Thread{}, byName: map[string]*Thread{}, tags: map[uint64]string{}, observe: map[uint64]bool{}}
+	return &Sched{threads: map[uint64]*Thread{}, byName: map[string]*Thread{}, tags: map[uint64]string{}, observe: map[uint64]bool{}, spawned: map[string]int{}, parents: map[uint64]uint64{}}
 }
 
 // entryFunc names the function the current goroutine was started with.
@@ -171,12 +187,38 @@ func (s *Sched) uniqueName(name string) string {
 	}
 }
 
+// parentGoid parses "created by ... in goroutine N" from the current goroutine's stack trace.
+func parentGoid() uint64 {
+	buf := make([]byte, 1<<14)
+	n := runtime.Stack(buf, false)
+	st := string(buf[:n])
+	i := strings.LastIndex(st, " in goroutine ")
+	if i < 0 {
+		return 0
+	}
+	st = st[i+len(" in goroutine "):]
+	j := 0
+	for j < len(st) && st[j] >= '0' && st[j] <= '9' {
+		j++
+	}
+	id, _ := strconv.ParseUint(st[:j], 10, 64)
+	return id
+}
+
 func (s *Sched) thread(g uint64) *Thread {
 	t := s.threads[g]
 	if t == nil {
 		name, ok := s.tags[g]
 		if !ok {
+			// Untagged goroutines are named after their entry function, qualified by the thread that
+			// spawned them and the ordinal of that spawn: program order within the parent, hence the
+			// same in every run of a schedule (arrival order at the first Point is not).
 			name = entryFunc()
+			if pt := s.threads[s.parentOf(g)]; pt != nil {
+				k := s.spawned[pt.Name+"|"+name]
+				s.spawned[pt.Name+"|"+name] = k + 1
+				name = fmt.Sprintf("%s<%s/%d>", name, pt.Name, k)
+			}
 		}
 		t = &Thread{Name: s.uniqueName(name), gid: g, gate: make(chan struct{}), Observer: s.observe[g]}
 		s.threads[g] = t
@@ -205,13 +247,27 @@ func Point(kind string) {
 	s.park(kind, nil, false)
 }
 
-// Lock is a Point that is enabled only while ls is free; the scheduler marks it held on release.
+// Lock is a Point that is enabled while no writer holds ls. If readers hold it when the thread is
+// scheduled, the thread registers as a waiting writer (blocking new readers) and parks again until
+// the readers are gone; otherwise the scheduler marks the lock held on release.
 func Lock(ls *LockState) {
 	s := cur.Load()
 	if s == nil {
 		panic("verifsched.Lock without scheduler")
 	}
 	s.park("lock", ls, false)
+	s.mu.Lock()
+	t := s.threads[goidasm.ID()]
+	if ls.Owner == t && ls.Held {
+		s.mu.Unlock()
+		return
+	}
+	ls.WriterWaiting++
+	s.mu.Unlock()
+	s.park("lock-wait", ls, false)
+	s.mu.Lock()
+	ls.WriterWaiting--
+	s.mu.Unlock()
 }
 
 func RLock(ls *LockState) {
@@ -250,10 +306,14 @@ func enabledLocked(t *Thread) bool {
 		return false
 	}
 	if t.Lock != nil {
-		if t.Read {
+		switch {
+		case t.Read:
+			return !t.Lock.Held && t.Lock.WriterWaiting == 0
+		case t.Kind == "lock-wait":
+			return !t.Lock.Held && t.Lock.Readers == 0
+		default: // "lock": may be requested whenever no writer holds it
 			return !t.Lock.Held
 		}
-		return !t.Lock.Held && t.Lock.Readers == 0
 	}
 	return true
 }
@@ -295,9 +355,10 @@ func (s *Sched) Release(t *Thread) {
 		panic("verifsched: release of a thread that is not enabled: " + t.Name)
 	}
 	if t.Lock != nil {
-		if t.Read {
+		switch {
+		case t.Read:
 			t.Lock.Readers++
-		} else {
+		case t.Lock.Readers == 0:
 			t.Lock.Held, t.Lock.Owner = true, t
 		}
 	}
